@@ -317,7 +317,7 @@ def _evr_case(draw):
         else:
             other = draw(_evr())
         pk.append(other)
-    return {"pkgs": pk, "via": draw(st.sampled_from(["dict", "json", "parser", "mixed-classes"]))}
+    return {"pkgs": pk, "via": draw(st.sampled_from(["dict", "json", "parser", "mixed-classes", "yumlist", "parser"]))}
 
 
 def strat_evr(tier):
@@ -356,11 +356,39 @@ def check_evr(case):
     elif case["via"] == "json":
         objs = [InstalledRpm.from_json(json.dumps(d)) for d in dicts]
     else:
-        parser_obj = InstalledRpms(Context(content=[json.dumps(d) for d in dicts], path="installed-rpms"))
-        objs = parser_obj.packages.get("pkg", [])
-        if len(objs) != len(dicts) or parser_obj.unparsed:
-            raise Violation("InstalledRpms did not parse every JSON package line", lines=dicts,
-                            unparsed=parser_obj.unparsed)
+        if case["via"] == "yumlist":
+            # another user of the same look-up interface: `yum list installed` rows (multilib: the same name
+            # for two architectures), in the generated order
+            from insights.parsers.yum_list import YumListInstalled
+            rows = ["Loaded plugins: product-id, search-disabled-repos", "Installed Packages"]
+            for k, p in enumerate(pk):
+                ep = "" if p["epoch"] in (None, "(none)") else p["epoch"] + ":"
+                rows.append("pkg.%s    %s%s-%s    @repo%d" % ("i686" if k % 3 == 2 else "x86_64", ep, p["version"],
+                                                           p["release"], k))
+            parser_obj = YumListInstalled(Context(content=rows, path="yum_list_installed"))
+            unparsed = []
+        else:
+            parser_obj = InstalledRpms(Context(content=[json.dumps(d) for d in dicts], path="installed-rpms"))
+            unparsed = parser_obj.unparsed
+        parsed = parser_obj.packages.get("pkg", [])
+        if len(parsed) != len(dicts) or unparsed:
+            raise Violation("%s did not parse every package line" % type(parser_obj).__name__, lines=dicts,
+                            unparsed=unparsed)
+        # which generated package is which parsed object is read from the objects' own fields, not from their
+        # position: the statement says nothing about the order in which a parser keeps its packages
+
+        def ident(epoch, version, release):
+            return (int(epoch) if epoch not in (None, "(none)") else 0, version, release)
+        remaining = list(parsed)
+        objs = []
+        for p in pk:
+            want = ident(p["epoch"], p["version"], p["release"])
+            hit = [o for o in remaining if ident(getattr(o, "epoch", None), o.version, o.release) == want]
+            if not hit:
+                raise Violation("%s: no parsed package carries epoch/version/release %r" % (type(parser_obj).__name__, want),
+                                lines=dicts)
+            remaining.remove(hit[0])
+            objs.append(hit[0])
     n = len(objs)
     labels = set()
     for i in range(n):
@@ -380,6 +408,8 @@ def check_evr(case):
         mx, mn = parser_obj.newest("pkg"), parser_obj.oldest("pkg")
         if mx is not parser_obj.get_max("pkg") or mn is not parser_obj.get_min("pkg"):
             raise Violation("newest/oldest disagree with get_max/get_min")
+        if parser_obj.newest("pkg") is not mx or parser_obj.oldest("pkg") is not mn:
+            raise Violation("two identical newest/oldest look-ups return different objects")
         imx = [k for k in range(n) if objs[k] is mx]
         imn = [k for k in range(n) if objs[k] is mn]
         if not imx or not imn:
